@@ -192,6 +192,12 @@ def _gen_case(seed, tier, index=0):
             reps[0]["faults"] = [{"op": "write", "path": tgt, "errno": rng.pick(["ENOSPC", "EFBIG", "EIO"]), "after": rng.pick([0, 45, 80, 120, 200])}]
             reps[0]["buffer_size"] = 16
             reps[0]["phase"] = "torn"
+            if rng.chance(0.6) and not any(o in opts for o in ("force_dot_license", "skip_unrecognised", "style")):
+                # an option that is a no-op for a file of a recognised type - also when the write fails
+                opts["fallback_dot_license"] = True
+                for st in case["variants"][0]["steps"]:
+                    if st.get("phase") in ("repeat", "torn"):
+                        st["argv"] = ["--no-multiprocessing"] + A.argv_of(opts, [name])
     if rng.chance(0.5):
         # the file system lists directories in another order for every command
         for st in case["variants"][0]["steps"]:
@@ -365,7 +371,7 @@ def oracle(case, results):
                 vs.append({"sig": f"C10/two-headers/file-and-companion/{tag}", "detail": f"{name_}:\n{a!r:.400}\n{name_}.license:\n{b!r:.400}"})
                 return vs
     # exactly one header block: every requested licence line occurs once
-    if nrep >= 2 and not opts.get("skip_existing"):
+    if nrep >= 2 and not opts.get("skip_existing") and not torn:  # what a dying run left behind may hold tag lines of its own
         req = A.requested(opts, "2024")
         for name in names:
             target = name + ".license" if cur.get(name + ".license") is not None else name
